@@ -380,6 +380,15 @@ func (fr *oFrame) rangeStmt(s *ast.RangeStmt) oCtl {
 		if len(ks) > fr.it.loopLimit() {
 			return fr.abort("range over %d map entries", len(ks))
 		}
+		if len(ks) > 1 {
+			fr.it.mapRanges++
+		}
+		if fr.it.mapReverse {
+			for i, j := 0, len(ks)-1; i < j; i, j = i+1, j-1 {
+				ks[i], ks[j] = ks[j], ks[i]
+				vs[i], vs[j] = vs[j], vs[i]
+			}
+		}
 		for i := range ks {
 			fr.env = &oEnv{vars: map[types.Object]*oval{}, parent: saved}
 			if s.Key != nil {
